@@ -250,6 +250,28 @@ func Discharge(obls []*Obligation, workdir string, timeoutS int) error {
 				to = o.timeout
 			}
 			o.Result = Solve(o.File, to, nil)
+			if (o.Result.Status == "timeout" || o.Result.Status == "unknown") && o.expect() == "unsat" && o.RawScript == "" &&
+				o.Goal != nil && o.Goal.Op == "and" && len(o.Goal.Args) <= 64 {
+				// fallback: prove the conjuncts one by one under the same assumptions
+				total := o.Result.Time
+				allOK := true
+				backend := ""
+				for k, g := range o.Goal.Args {
+					sc := o.Bank.Script(o.Assume, g, o.chunks, o.Prelude, o.Axioms)
+					f := fmt.Sprintf("%s.part%d.smt2", strings.TrimSuffix(o.File, ".smt2"), k)
+					os.WriteFile(f, []byte(sc), 0o644)
+					r := Solve(f, to, nil)
+					total += r.Time
+					if r.Status != "unsat" {
+						allOK = false
+						break
+					}
+					backend = r.Backend
+				}
+				if allOK {
+					o.Result = SolveResult{Status: "unsat", Backend: backend + "(split)", Time: total, Detail: fmt.Sprintf("proved as %d separate conjuncts", len(o.Goal.Args))}
+				}
+			}
 		}(o)
 	}
 	wg.Wait()
